@@ -398,8 +398,9 @@ func (h *H) observe() snap {
 	for _, v := range vs {
 		vss = append(vss, v.s)
 	}
-	sn.line = fmt.Sprintf("gov=%s props=[%s] deps=[%s] inact=[%s] act=[%s] bal=[%s] kv=%s cust=[%s] votes=[%s]",
-		sn.govAll.AmountOf(denom), strings.Join(ps, ";"), strings.Join(dss, ";"), strings.Join(sn.inactive, ";"),
+	nid, _ := k.ProposalID.Peek(ctx)
+	sn.line = fmt.Sprintf("nid=%d gov=%s props=[%s] deps=[%s] inact=[%s] act=[%s] bal=[%s] kv=%s cust=[%s] votes=[%s]",
+		nid, sn.govAll.AmountOf(denom), strings.Join(ps, ";"), strings.Join(dss, ";"), strings.Join(sn.inactive, ";"),
 		strings.Join(sn.active, ";"), strings.Join(bs, ";"), strings.Join(cs, ","), strings.Join(cus, ";"), strings.Join(vss, ";"))
 	return sn
 }
@@ -1991,6 +1992,11 @@ func TestC15(t *testing.T) {
 		h := newH(t, out, rng, 3, 4)
 		h.start(facts)
 		h.scenarioMidFlight()
+	}
+	{
+		h := newH(t, out, rng, 3, 4)
+		h.start(facts)
+		h.scenarioSameBlock()
 	}
 	nSeq := hx.N(240, 1500)
 	for i := 0; i < nSeq; i++ {
